@@ -32,8 +32,12 @@ public:
     constexpr const Tensor<T,N>& expr() const {return _expr;}
 
     FASTOR_INLINE TensorConstViewExpr(const Tensor<T,N> &_ex, const seq &_s) : _expr(_ex), _seq(_s) {
-        if (_seq._last < 0) _seq._last += N + /*including the end point*/ 1;
-        if (_seq._first < 0) _seq._first += N + /*including the end point*/ 1;
+        // seq(-1) i.e. (-1,0) stands for the last element, as in the 2D and nD views
+        if (_seq._last == 0 && _seq._first == -1) {_seq._first = N - 1; _seq._last = N;}
+        else {
+            if (_seq._last < 0) _seq._last += N + /*including the end point*/ 1;
+            if (_seq._first < 0) _seq._first += N + /*including the end point*/ 1;
+        }
     }
 
     template<typename U>
@@ -116,8 +120,12 @@ public:
     }
 
     FASTOR_INLINE TensorViewExpr(Tensor<T,N> &_ex, const seq &_s) : _expr(_ex), _seq(_s) {
-        if (_seq._last < 0) _seq._last += N + /*including the end point*/ 1;
-        if (_seq._first < 0) _seq._first += N + /*including the end point*/ 1;
+        // seq(-1) i.e. (-1,0) stands for the last element, as in the 2D and nD views
+        if (_seq._last == 0 && _seq._first == -1) {_seq._first = N - 1; _seq._last = N;}
+        else {
+            if (_seq._last < 0) _seq._last += N + /*including the end point*/ 1;
+            if (_seq._first < 0) _seq._first += N + /*including the end point*/ 1;
+        }
     }
     // the generic n-dimensional view (used for 1D TensorMaps) hands over its sequences as an array
     FASTOR_INLINE TensorViewExpr(Tensor<T,N> &_ex, const std::array<seq,1> &_s) : TensorViewExpr(_ex, _s[0]) {}
